@@ -45,6 +45,12 @@ def judge_db(ctx, db, root_tbl, model, filters, tally, viol, agree_only=False):
                 cls = " ".join(r.split(" ")[:2])
                 tally[f"{name}:{cls}"] += 1
                 pm = plans["django" if name == "django" else "sa"][k]
+                unknown_field = r.startswith(("env:FieldError", "env:FieldDoesNotExist", "lib InvalidFieldException"))
+                if unknown_field:
+                    # a name the model does not have: refused by the ORM (Django) / by the library (SQLAlchemy); the plan models do not
+                    # carry column catalogues, so there is nothing to compare
+                    tally[f"{name}:refused-unknown-field"] += 1
+                    continue
                 if pm.startswith("ok ") and not (name.startswith("sa-") and rc.same_table_twice(t, model)):
                     ctx.diffs.append(("rel-plan-" + name, (model, t), r[:80], pm[:80]))
                     tally[f"{name}:PLAN-MODEL-DIFF"] += 1
